@@ -521,12 +521,8 @@ def np_argsort(ex, args, kw, st):
     st.fact(z3.ForAll([k, m], z3.Implies(z3.And(rng(k), rng(m), k < m),
                                          real(fn(perm(k))) <= real(fn(perm(m))))))
     surj = z3.Implies(rng(k), z3.And(rng(inv(k)), perm(inv(k)) == k))
-    trig = real(fn(k))
-    if z3.is_app(trig) and trig.decl().kind() == z3.Z3_OP_UNINTERPRETED:
-        # every row whose value is mentioned is some perm(q): instantiate on f(k)
-        st.fact(z3.ForAll([k], surj, patterns=[trig]))
-    else:
-        st.fact(z3.ForAll([k], surj))
+    # every row whose value is mentioned is some perm(q): instantiate on f(k)
+    st.fact(_forall_pat([k], surj, real(fn(k))))
     return SSeq(n, lambda i: perm(num_term(i)), 'int')
 
 
@@ -544,6 +540,17 @@ def _flat_view(v):
         n = num_term(v.shape[0]) * w
         return n, None, v.kind          # membership is stated over (i, j) pairs instead
     raise Unsupported('np.unique of this value')
+
+
+def _forall_pat(vs, body, trig):
+    """ForAll with an E-matching pattern when the trigger term is usable, else without."""
+    try:
+        if z3.is_app(trig) and trig.num_args() > 0 \
+                and trig.decl().kind() == z3.Z3_OP_UNINTERPRETED:
+            return z3.ForAll(vs, body, patterns=[trig])
+    except z3.Z3Exception:
+        pass
+    return z3.ForAll(vs, body)
 
 
 def np_unique(ex, args, kw, st):
@@ -574,9 +581,8 @@ def np_unique(ex, args, kw, st):
             wi(k) >= 0, wi(k) < num_term(v.shape[0]), wj(k) >= 0, wj(k) < num_term(v.shape[1]),
             num_term(f((wi(k), wj(k)))) == u(k)))))
         elem = num_term(f((i, j)))
-        st.fact(z3.ForAll([i, j], z3.Implies(inb, z3.And(pos(i, j) >= 0, pos(i, j) < m,
-                                                         u(pos(i, j)) == elem)),
-                          patterns=[elem] if z3.is_app(elem) and elem.num_args() > 0 else []))
+        st.fact(_forall_pat([i, j], z3.Implies(inb, z3.And(pos(i, j) >= 0, pos(i, j) < m,
+                                                           u(pos(i, j)) == elem)), elem))
     else:
         n, fn, _ = _flat_view(v)
         w = z3.Function(f'unique_w!{uid}', z3.IntSort(), z3.IntSort())
@@ -585,9 +591,8 @@ def np_unique(ex, args, kw, st):
         st.fact(z3.ForAll([k], z3.Implies(z3.And(k >= 0, k < m), z3.And(
             w(k) >= 0, w(k) < n, num_term(fn(w(k))) == u(k)))))
         elem = num_term(fn(i))
-        st.fact(z3.ForAll([i], z3.Implies(z3.And(i >= 0, i < n), z3.And(
-            pos(i) >= 0, pos(i) < m, u(pos(i)) == elem)),
-            patterns=[elem] if z3.is_app(elem) and elem.num_args() > 0 else []))
+        st.fact(_forall_pat([i], z3.Implies(z3.And(i >= 0, i < n), z3.And(
+            pos(i) >= 0, pos(i) < m, u(pos(i)) == elem)), elem))
     return SSeq(m, lambda q: u(num_term(q)), kind)
 
 
